@@ -15,6 +15,9 @@ CLAIMED = {
             'trusts z3, the proxy layer (self-tested on every run), CPython; python ints modelled exactly by mathematical integers', 'DESIGN.md §5 C18'),
 }
 
+CLAIMED['C08'] = ('other', 'bounded symbolic execution: the one-step kinematic law (move iff target in grid and non-blocking, turns rotate and never displace, nothing else changes the pose except teleport from a telepod) and one-step preservation of "agent in grid on a non-blocking cell" are decided by z3 for every pose, action, held item and every content of the cells, on all shapes within the bounds; the history claim follows by induction with C13',
+                  'trusts z3, the proxy layer, the LazyRows/SymRng stubs (DESIGN.md §2.4) and the restated blocking table; shapes beyond the bound are outside the verdict', 'DESIGN.md §5 C08')
+
 NOT_APPLICABLE = {
     'C19': 'floating-point trigonometric ray kernel (sin/cos/arctan2 via libm/numpy, round-to-nearest of accumulated float steps): no SMT theory for the transcendental part, the only FP-expressible lemma timed out (300 s) on z3 and cvc5, and the remaining inputs form a small finite domain a solver would merely enumerate; see DESIGN.md §5 C19',
 }
